@@ -510,6 +510,15 @@ func (ev *evaluator) eval(fr *evalFrame, v ssa.Value, depth int) (interface{}, b
 		return str[lo:hi], true
 	case *ssa.Call:
 		if b, isB := x.Common().Value.(*ssa.Builtin); isB && b.Name() == "len" && len(x.Common().Args) == 1 {
+			// the length of a literal package-level table (never written after init: C09 R09.1)
+			if ld, isLd := x.Common().Args[0].(*ssa.UnOp); isLd && ld.Op == token.MUL {
+				if g, isG := ld.X.(*ssa.Global); isG {
+					if tv := globalTVal(g); tv != nil && tv.Kind == "list" {
+						return int64(len(tv.L)), true
+					}
+					return nil, false
+				}
+			}
 			if sv, ok := ev.eval(fr, x.Common().Args[0], depth+1); ok {
 				if str, isS := sv.(string); isS {
 					return int64(len(str)), true
@@ -956,4 +965,124 @@ func mapLookups(fn *ssa.Function, table string) []*ssa.Lookup {
 		}
 	}
 	return out
+}
+
+// runCounted walks a function that contains exactly one loop whose loop-carried values are all
+// induction variables (entry value plus a constant per iteration): the part before the loop is
+// walked as usual; the loop body is then read as a decision table over the iteration number n, the
+// carried values being given by their closed form init + n*step, until an iteration returns or the
+// exit path does. No state other than the closed forms is carried from one n to the next. Outcomes
+// as for run; "fail" when the loop is not of that shape.
+func (ev *evaluator) runCounted(fn *ssa.Function, maxIter int) ([]interface{}, string) {
+	var header *ssa.BasicBlock
+	for _, b := range fn.Blocks {
+		for _, p := range b.Preds {
+			if b.Dominates(p) {
+				if header != nil && header != b {
+					ev.setFail("more than one loop in " + fname(fn))
+					return nil, "fail"
+				}
+				header = b
+			}
+		}
+	}
+	fr0 := &evalFrame{fn: fn, phiFrom: map[*ssa.BasicBlock]*ssa.BasicBlock{}}
+	if header == nil {
+		return ev.runFrame(fr0, nil, nil)
+	}
+	if header != fn.Blocks[0] {
+		res, outcome := ev.runFrame(fr0, nil, func(b *ssa.BasicBlock) bool { return b == header })
+		if outcome != fmt.Sprintf("stop:%d", header.Index) {
+			return res, outcome
+		}
+	} else {
+		ev.setFail("the loop of " + fname(fn) + " starts at the entry")
+		return nil, "fail"
+	}
+	type iv struct {
+		phi        *ssa.Phi
+		init, step int64
+		other      interface{} // a loop-invariant value that is not an integer
+		invariant  bool
+	}
+	var ivs []iv
+	for _, ins := range header.Instrs {
+		phi, ok := ins.(*ssa.Phi)
+		if !ok {
+			break
+		}
+		c0, ok := ev.eval(fr0, phi, 0) // resolves to the entry edge
+		if !ok {
+			ev.setFail("the entry value of a loop-carried value of " + fname(fn) + " is not evaluable")
+			return nil, "fail"
+		}
+		v := iv{phi: phi}
+		stepSet := false
+		for i, e := range phi.Edges {
+			if !header.Dominates(header.Preds[i]) {
+				continue
+			}
+			var d int64
+			switch {
+			case e == ssa.Value(phi):
+				d = 0
+			default:
+				bo, isB := e.(*ssa.BinOp)
+				if !isB || (bo.Op != token.ADD && bo.Op != token.SUB) {
+					ev.setFail("a loop-carried value of " + fname(fn) + " is not an induction variable")
+					return nil, "fail"
+				}
+				k, isK := constInt(bo.Y)
+				if isK && bo.X == ssa.Value(phi) {
+					d = k
+					if bo.Op == token.SUB {
+						d = -k
+					}
+				} else if k, isK := constInt(bo.X); isK && bo.Y == ssa.Value(phi) && bo.Op == token.ADD {
+					d = k
+				} else {
+					ev.setFail("a loop-carried value of " + fname(fn) + " is not an induction variable")
+					return nil, "fail"
+				}
+			}
+			if stepSet && d != v.step {
+				ev.setFail("a loop-carried value of " + fname(fn) + " advances differently on different paths")
+				return nil, "fail"
+			}
+			v.step, stepSet = d, true
+		}
+		if k, isI := c0.(int64); isI {
+			v.init = k
+		} else if v.step == 0 {
+			v.other, v.invariant = c0, true
+		} else {
+			ev.setFail("a loop-carried value of " + fname(fn) + " is not an integer")
+			return nil, "fail"
+		}
+		ivs = append(ivs, v)
+	}
+	for n := 0; n < maxIter; n++ {
+		fr := &evalFrame{fn: fn, phiFrom: map[*ssa.BasicBlock]*ssa.BasicBlock{}, vals: map[ssa.Value]interface{}{}}
+		for k, p := range fr0.phiFrom {
+			if k != header {
+				fr.phiFrom[k] = p
+			}
+		}
+		for k, x := range fr0.vals {
+			fr.vals[k] = x
+		}
+		for _, v := range ivs {
+			if v.invariant {
+				fr.vals[v.phi] = v.other
+			} else {
+				fr.vals[v.phi] = v.init + int64(n)*v.step
+			}
+		}
+		res, outcome := ev.runFrame(fr, header, func(b *ssa.BasicBlock) bool { return b == header })
+		if outcome != fmt.Sprintf("stop:%d", header.Index) {
+			return res, outcome
+		}
+	}
+	ev.setFail("the loop of " + fname(fn) + " does not end within the iteration budget")
+	return nil, "fail"
 }
